@@ -126,7 +126,7 @@ func NewOperation(s *specification.Operation, components Componenter, cfg Config
 					o.Body.GoTypeFn = body.RenderGoType
 				} else {
 					switch body.Type.(type) {
-					case StructureType:
+					case StructureType, OneOfStructure:
 						sc := NewSchemaComponent(string(name)+"ParamsBody", body, components, cfg)
 						o.Body.Type = Just(sc)
 					default:
